@@ -30,13 +30,16 @@
 (* successors) so that the design-level Next and the trace acceptor of     *)
 (* TraceMalformed are the same relation.                                   *)
 (***************************************************************************)
-EXTENDS Naturals, Sequences, FiniteSets, TLC
+EXTENDS Naturals, Sequences, FiniteSets, TLC, CfgSchema
 
 CONSTANTS MaxPrefix,      \* well-formed entries before the malformed item (0..MaxPrefix)
           MaxTrail,       \* well-formed entries after it (0..MaxTrail)
-          Variant,        \* "ok" | negative controls: "swallow", "loseprefix", "spin"
+          Variant,        \* "ok" | negative controls: "swallow", "loseprefix", "spin", "noname", "freerewind"
           ReqTokens,      \* step tokens of enumerated scenario request lists (subset of AllReqTokens)
-          MaxReqLen       \* request lists of 0..MaxReqLen steps
+          MaxReqLen,      \* request lists of 0..MaxReqLen steps
+          CfgTreeSyn,     \* syntaxes in which the configuration-tree cases (CfgSchema) are enumerated
+          MaxPropLines,   \* property files of 0..MaxPropLines lines
+          PropLayoutSet   \* layouts in which they are written (subset of PropLayouts)
 
 VARIABLES cs,             \* the case (constant during a behaviour)
           st              \* reader state
@@ -71,7 +74,32 @@ SizeClasses   == {"truncated", "negsize", "absurdsize", "nonnumsize"}
 \*          arg = <<item class, passes, limit>> (limit 0 = none).  The reader re-opens the file for every pass:
 \*          pass k delivers what pass 1 delivered, the item is met (and the run fails) in pass 1 unless the limit
 \*          stops the reader before it gets there; whole-file readers meet it while loading, whatever the limit.
-ParamAmmoClasses == {"cut", "long", "rerun"}
+\*   degen: the file consists of NOTHING BUT n copies of one degenerate item (a raw entry of size 0, blank lines, header
+\*          lines without an entry, empty JSON objects), read by a streaming reader with passes = 0 (unlimited) while the
+\*          consumers take `take` entries; arg = <<item kind, n, take>>.  Decided here: PROGRESS - a reader goes round
+\*          the file again only after a pass that handed something out; a pass without ammo ends the run ("no ammo in
+\*          file").  The driver counts the rewinds of the file (file operations, not time).
+\*   bufline: grpc/json read with the max_ammo_size option (the line buffer of its scanner); the item is the FIRST line
+\*          of the file.  arg = <<length of the line, option>>; the verdict is arithmetic: the line fits the buffer or not
+\*          (a line the scanner cannot produce cannot be skipped either - the reader does not find the next one).
+ParamAmmoClasses == {"cut", "long", "rerun", "degen", "bufline"}
+BufLineArgs == { <<l, b>> : l \in {"short", "70k"}, b \in {"default", "tiny", "large", "neg"} }
+LineLen(l)  == IF l = "short" THEN 100 ELSE 70000                      \* about; the margins are wide
+BufLimit(b) == CASE b = "default" -> 65536 [] b = "tiny" -> 50 [] b = "large" -> 100000 [] OTHER -> 0
+BufVerdict(a) == IF a[2] = "neg" THEN "either"                           \* a negative size: the statement does not say
+                 ELSE IF LineLen(a[1]) < BufLimit(a[2]) THEN "deliver" ELSE "reject"
+DegenKinds(f) == CASE f = "raw"      -> {"size0", "size0tag", "blank"}
+                   [] f = "uripost"  -> {"blank", "hdronly"}
+                   [] f = "uri"      -> {"blank", "hdronly"}
+                   [] f = "jsonline" -> {"emptyobj", "blank"}
+                   [] f = "grpcjson" -> {"emptyobj", "blank"}
+                   [] OTHER          -> {}
+DegenArgs(f) == { <<d, n, k>> : d \in DegenKinds(f), n \in 1..2, k \in {1, 3} }
+\* what a reader may do with a degenerate item.  Blank lines and header lines are not entries: they are stepped over.
+\* An entry that is complete but carries no request (size 0, {}) may be stepped over, rejected, or handed out as it is
+\* (that the http provider hands out entries it cannot build a request from is finding #24, not judged again here).
+DegenTreat(f, d) == IF d \in {"blank", "hdronly"} THEN (IF f = "grpcjson" THEN {"skip", "reject"} ELSE {"skip"})
+                    ELSE {"skip", "reject", "handout"}
 RerunBad(f) == CASE f = "uri" -> "hdr_nocolon" [] f = "uripost" -> "negsize" [] f = "raw" -> "nonnumsize" [] OTHER -> "badjson"
 RerunArgs(f) == { <<b, p, l>> : b \in {"none", RerunBad(f)}, p \in 2..3, l \in {0, 1, 3, 5} }
 CutPoints == {"sizeline_mid",      \* inside the size line itself
@@ -87,11 +115,23 @@ EofClasses    == {"trunc1", "mib_trunc", "big_trunc1", "big_trunc"}     \* the i
 \* hdr_tail: well-formed header lines ([X-Seq: late], [Host: evil...]) followed by a broken one - a malformed tail that
 \*           must not reach back into the entries already read;  hdr_late: the same header lines alone (legal, silent)
 HeaderClasses == {"hdr_nocolon", "hdr_nobracket", "hdr_emptykey", "hdr_tail"}
-JsonClasses   == {"badjson", "shape_array", "shape_type", "shape_scalar"}
+\* field-level JSON classes: the line is valid JSON and an object, ONE field has a value of the wrong JSON type
+\* (grpc/json: payload must be an object, metadata a map of strings, call and tag strings; http/json: headers a map of
+\* strings, uri / method / host / body / tag strings)
+GrpcFieldClasses == {"payload_scalar", "payload_array", "payload_string", "meta_list", "meta_nonstring", "meta_nested",
+                     "call_number", "tag_object"}
+HttpFieldClasses == {"hdr_list", "hdr_nonstring", "hdr_nested", "body_number", "body_object", "uri_number", "host_list",
+                     "method_number", "tag_number"}
+BaseJsonClasses  == {"badjson", "shape_array", "shape_type", "shape_scalar"}
+JsonClasses   == BaseJsonClasses \cup GrpcFieldClasses \cup HttpFieldClasses
+\* valid JSON objects the statement does not pin: a field given twice (with the same value), a field nobody knows, a
+\* null payload / null headers, no call at all: an entry like any other, or an error - never a crash
+EitherJsonClasses == {"dup_field", "extra_field", "field_null", "call_missing"}
 FieldClasses  == {"nouri", "badurl", "badmethod"}
 \* the FILE is well-formed, the `headers` option of the provider config is not (util.DecodeHTTPConfigHeaders)
 CfgClasses    == {"cfghdr_nocolon", "cfghdr_nobracket", "cfghdr_emptykey"}
 AmmoClasses   == {"none", "longline", "nullvalue", "badrequest"} \cup SizeClasses \cup HeaderClasses \cup JsonClasses \cup FieldClasses \cup CfgClasses
+                 \cup EitherJsonClasses
                  \cup BigOkClasses \cup EofClasses \cup {"size0", "hdr_late"} \cup ParamAmmoClasses
 
 Applies(f, c) ==
@@ -101,9 +141,15 @@ Applies(f, c) ==
       [] c = "cut"           -> f \in {"uripost", "raw"}
       [] c = "long"          -> f = "grpcjson"
       [] c = "rerun"         -> TRUE
+      [] c = "degen"         -> DegenKinds(f) # {}
+      [] c = "bufline"       -> f = "grpcjson"
       [] c = "hdr_late"      -> f \in {"uri", "uripost"}
       [] c \in HeaderClasses -> f \in {"uri", "uripost"}
-      [] c \in JsonClasses   -> f \in {"jsonline", "jsonarray", "grpcjson"}
+      [] c \in BaseJsonClasses  -> f \in {"jsonline", "jsonarray", "grpcjson"}
+      [] c \in GrpcFieldClasses -> f = "grpcjson"
+      [] c \in HttpFieldClasses -> f \in {"jsonline", "jsonarray"}
+      [] c = "call_missing"     -> f = "grpcjson"
+      [] c \in EitherJsonClasses \ {"call_missing"} -> f \in {"jsonline", "jsonarray", "grpcjson"}
       [] c = "nullvalue"     -> f \in {"jsonline", "jsonarray", "grpcjson"}
       [] c = "longline"      -> f # "jsonarray"
       [] c = "badrequest"    -> f = "raw"       \* right size, but the bytes are not an HTTP request
@@ -126,12 +172,14 @@ Verdict(f, c) ==
       [] c \in BigOkClasses \cup {"size0"} -> "deliver"
       [] c = "longline"  -> IF HasLineLimit(f) THEN "reject" ELSE "deliver"
       [] c = "nullvalue" -> "either"
+      [] c \in EitherJsonClasses -> "either"
       [] c = "hdr_late"  -> "silent"       \* legal header lines: nothing is delivered for them, nothing fails
       [] OTHER           -> "reject"
 
 \* verdict of a case (the parameterised classes look at c.arg)
 \* ("mustskip": the undecodable lines of a long continue-on-error file are stepped over, one by one)
-VerdictC(c) == IF c.cls = "cut" THEN (IF c.arg[1] = "body_nonl" THEN "deliver" ELSE "reject")
+VerdictC(c) == IF c.cls = "degen" THEN "either" ELSE IF c.cls = "bufline" THEN BufVerdict(c.arg) ELSE
+               IF c.cls = "cut" THEN (IF c.arg[1] = "body_nonl" THEN "deliver" ELSE "reject")
                ELSE IF c.cls = "long" THEN "mustskip"
                ELSE IF c.cls = "rerun" THEN Verdict(c.format, c.arg[1])
                ELSE Verdict(c.format, c.cls)
@@ -142,7 +190,7 @@ Limit(c) == IF c.cls = "rerun" THEN c.arg[3] ELSE 0
 
 \* continue-on-error can step over an item only when the reader can find the next one:
 \* a line that decodes badly, not a line the scanner could not even produce
-Skippable(f, c) == f = "grpcjson" /\ c \in JsonClasses \cup {"long"}
+Skippable(f, c) == f = "grpcjson" /\ c \in JsonClasses \cup EitherJsonClasses \cup {"long"}
 
 \* whole-file readers decode everything before the first delivery
 WholeFile(f, m) == f = "jsonarray" \/ m = "preload"
@@ -204,10 +252,109 @@ DescTable == [
     xpath_string     |-> [t |-> {"http_hcl", "http_yaml"}, at |-> 4, v |-> "reject"],
     xpath_bool       |-> [t |-> {"http_hcl", "http_yaml"}, at |-> 4, v |-> "reject"],
     xpath_invalid    |-> [t |-> {"http_hcl", "http_yaml"}, at |-> 4, v |-> "reject"],
+    \* syntax families (round 4 growth): grammar violations of the description text are rejected while it is read;
+    \* legal layouts (CRLF, YAML aliases) are delivered; what the grammar allows but the statement does not pin, and
+    \* malformed DATA files of the variable sources, are `lax`: an error at some stage or a normal run - never a crash
+    hcl_unclosed_block       |-> [t |-> {"http_hcl", "grpc_hcl"}, at |-> 1, v |-> "reject"],
+    hcl_extra_close          |-> [t |-> {"http_hcl", "grpc_hcl"}, at |-> 1, v |-> "reject"],
+    hcl_unclosed_string      |-> [t |-> {"http_hcl", "grpc_hcl"}, at |-> 1, v |-> "reject"],
+    hcl_unclosed_heredoc     |-> [t |-> {"http_hcl", "grpc_hcl"}, at |-> 1, v |-> "reject"],
+    hcl_unclosed_template    |-> [t |-> {"http_hcl", "grpc_hcl"}, at |-> 1, v |-> "reject"],
+    hcl_unclosed_list        |-> [t |-> {"http_hcl", "grpc_hcl"}, at |-> 1, v |-> "reject"],
+    hcl_missing_eq           |-> [t |-> {"http_hcl", "grpc_hcl"}, at |-> 1, v |-> "reject"],
+    hcl_bare_word            |-> [t |-> {"http_hcl", "grpc_hcl"}, at |-> 1, v |-> "reject"],
+    hcl_unknown_function     |-> [t |-> {"http_hcl", "grpc_hcl"}, at |-> 1, v |-> "reject"],
+    hcl_unknown_local        |-> [t |-> {"http_hcl", "grpc_hcl"}, at |-> 1, v |-> "reject"],
+    hcl_unknown_root         |-> [t |-> {"http_hcl", "grpc_hcl"}, at |-> 1, v |-> "reject"],
+    hcl_cyclic_local_used    |-> [t |-> {"http_hcl", "grpc_hcl"}, at |-> 1, v |-> "reject"],
+    hcl_two_labels           |-> [t |-> {"http_hcl", "grpc_hcl"}, at |-> 1, v |-> "reject"],
+    hcl_no_label             |-> [t |-> {"http_hcl", "grpc_hcl"}, at |-> 1, v |-> "reject"],
+    hcl_label_unquoted_number |-> [t |-> {"http_hcl", "grpc_hcl"}, at |-> 1, v |-> "reject"],
+    hcl_unknown_block        |-> [t |-> {"http_hcl", "grpc_hcl"}, at |-> 1, v |-> "reject"],
+    hcl_unknown_attr         |-> [t |-> {"http_hcl", "grpc_hcl"}, at |-> 1, v |-> "reject"],
+    hcl_dup_attr             |-> [t |-> {"http_hcl", "grpc_hcl"}, at |-> 1, v |-> "reject"],
+    hcl_block_as_attr        |-> [t |-> {"http_hcl", "grpc_hcl"}, at |-> 1, v |-> "reject"],
+    hcl_attr_as_block        |-> [t |-> {"http_hcl", "grpc_hcl"}, at |-> 1, v |-> "reject"],
+    hcl_top_level_attr       |-> [t |-> {"http_hcl", "grpc_hcl"}, at |-> 1, v |-> "reject"],
+    hcl_nul_outside          |-> [t |-> {"http_hcl", "grpc_hcl"}, at |-> 1, v |-> "reject"],
+    hcl_json_text            |-> [t |-> {"http_hcl", "grpc_hcl"}, at |-> 1, v |-> "reject"],
+    hcl_deep_unclosed        |-> [t |-> {"http_hcl", "grpc_hcl"}, at |-> 1, v |-> "reject"],
+    hcl_empty_file           |-> [t |-> {"http_hcl", "grpc_hcl"}, at |-> 2, v |-> "reject"],
+    hcl_only_comment         |-> [t |-> {"http_hcl", "grpc_hcl"}, at |-> 2, v |-> "reject"],
+    hcl_crlf                 |-> [t |-> {"http_hcl", "grpc_hcl"}, at |-> 0, v |-> "deliver"],
+    hcl_cyclic_locals        |-> [t |-> {"http_hcl", "grpc_hcl"}, at |-> 1, v |-> "lax"],
+    hcl_self_local           |-> [t |-> {"http_hcl", "grpc_hcl"}, at |-> 1, v |-> "lax"],
+    hcl_dup_request          |-> [t |-> {"http_hcl", "grpc_hcl"}, at |-> 1, v |-> "lax"],
+    hcl_nul                  |-> [t |-> {"http_hcl", "grpc_hcl"}, at |-> 1, v |-> "lax"],
+    hcl_bom                  |-> [t |-> {"http_hcl", "grpc_hcl"}, at |-> 1, v |-> "lax"],
+    hcl_badutf8              |-> [t |-> {"http_hcl", "grpc_hcl"}, at |-> 1, v |-> "lax"],
+    hcl_deep_list            |-> [t |-> {"http_hcl", "grpc_hcl"}, at |-> 1, v |-> "lax"],
+    hcl_deep_parens          |-> [t |-> {"http_hcl", "grpc_hcl"}, at |-> 1, v |-> "lax"],
+    hcl_unary_chain          |-> [t |-> {"http_hcl", "grpc_hcl"}, at |-> 1, v |-> "lax"],
+    hcl_huge_weight          |-> [t |-> {"http_hcl", "grpc_hcl"}, at |-> 1, v |-> "lax"],
+    hcl_float_weight         |-> [t |-> {"http_hcl", "grpc_hcl"}, at |-> 1, v |-> "lax"],
+    hcl_string_weight        |-> [t |-> {"http_hcl", "grpc_hcl"}, at |-> 1, v |-> "lax"],
+    hcl_long_string          |-> [t |-> {"http_hcl", "grpc_hcl"}, at |-> 1, v |-> "lax"],
+    yaml_tab                 |-> [t |-> {"http_yaml", "grpc_yaml"}, at |-> 1, v |-> "reject"],
+    yaml_bad_indent          |-> [t |-> {"http_yaml", "grpc_yaml"}, at |-> 1, v |-> "reject"],
+    yaml_unclosed_quote      |-> [t |-> {"http_yaml", "grpc_yaml"}, at |-> 1, v |-> "reject"],
+    yaml_unclosed_flow       |-> [t |-> {"http_yaml", "grpc_yaml"}, at |-> 1, v |-> "reject"],
+    yaml_missing_colon       |-> [t |-> {"http_yaml", "grpc_yaml"}, at |-> 1, v |-> "reject"],
+    yaml_alias_undefined     |-> [t |-> {"http_yaml", "grpc_yaml"}, at |-> 1, v |-> "reject"],
+    yaml_nul                 |-> [t |-> {"http_yaml", "grpc_yaml"}, at |-> 1, v |-> "reject"],
+    yaml_scalar_doc          |-> [t |-> {"http_yaml", "grpc_yaml"}, at |-> 1, v |-> "reject"],
+    yaml_list_doc            |-> [t |-> {"http_yaml", "grpc_yaml"}, at |-> 1, v |-> "reject"],
+    yaml_tag_bad             |-> [t |-> {"http_yaml", "grpc_yaml"}, at |-> 1, v |-> "reject"],
+    yaml_unknown_key         |-> [t |-> {"http_yaml", "grpc_yaml"}, at |-> 1, v |-> "reject"],
+    yaml_empty_file          |-> [t |-> {"http_yaml", "grpc_yaml"}, at |-> 2, v |-> "reject"],
+    yaml_only_comment        |-> [t |-> {"http_yaml", "grpc_yaml"}, at |-> 2, v |-> "reject"],
+    yaml_crlf                |-> [t |-> {"http_yaml", "grpc_yaml"}, at |-> 0, v |-> "deliver"],
+    yaml_alias_ok            |-> [t |-> {"http_yaml", "grpc_yaml"}, at |-> 0, v |-> "deliver"],
+    yaml_dup_key             |-> [t |-> {"http_yaml", "grpc_yaml"}, at |-> 1, v |-> "lax"],
+    yaml_anchor_cycle        |-> [t |-> {"http_yaml", "grpc_yaml"}, at |-> 1, v |-> "lax"],
+    yaml_laughs              |-> [t |-> {"http_yaml", "grpc_yaml"}, at |-> 1, v |-> "lax"],
+    yaml_laughs_used         |-> [t |-> {"http_yaml", "grpc_yaml"}, at |-> 1, v |-> "lax"],
+    yaml_bom                 |-> [t |-> {"http_yaml", "grpc_yaml"}, at |-> 1, v |-> "lax"],
+    yaml_badutf8             |-> [t |-> {"http_yaml", "grpc_yaml"}, at |-> 1, v |-> "lax"],
+    yaml_second_doc          |-> [t |-> {"http_yaml", "grpc_yaml"}, at |-> 1, v |-> "lax"],
+    yaml_deep_flow           |-> [t |-> {"http_yaml", "grpc_yaml"}, at |-> 1, v |-> "lax"],
+    csv_crlf                 |-> [t |-> ScenarioTargets, at |-> 0, v |-> "deliver"],
+    csv_ragged_short         |-> [t |-> ScenarioTargets, at |-> 1, v |-> "lax"],
+    csv_ragged_long          |-> [t |-> ScenarioTargets, at |-> 1, v |-> "lax"],
+    csv_wrong_delim          |-> [t |-> ScenarioTargets, at |-> 1, v |-> "lax"],
+    csv_bare_quote           |-> [t |-> ScenarioTargets, at |-> 1, v |-> "lax"],
+    csv_quote_garbage        |-> [t |-> ScenarioTargets, at |-> 1, v |-> "lax"],
+    csv_only_header          |-> [t |-> ScenarioTargets, at |-> 1, v |-> "lax"],
+    csv_zero_bytes           |-> [t |-> ScenarioTargets, at |-> 1, v |-> "lax"],
+    csv_blank_lines          |-> [t |-> ScenarioTargets, at |-> 1, v |-> "lax"],
+    csv_cr_only              |-> [t |-> ScenarioTargets, at |-> 1, v |-> "lax"],
+    csv_nul                  |-> [t |-> ScenarioTargets, at |-> 1, v |-> "lax"],
+    csv_bom                  |-> [t |-> ScenarioTargets, at |-> 1, v |-> "lax"],
+    csv_badutf8              |-> [t |-> ScenarioTargets, at |-> 1, v |-> "lax"],
+    csv_huge_field           |-> [t |-> ScenarioTargets, at |-> 1, v |-> "lax"],
+    csv_many_fields          |-> [t |-> ScenarioTargets, at |-> 1, v |-> "lax"],
+    csv_binary               |-> [t |-> ScenarioTargets, at |-> 1, v |-> "lax"],
+    csv_is_dir               |-> [t |-> ScenarioTargets, at |-> 1, v |-> "lax"],
+    json_zero_bytes          |-> [t |-> ScenarioTargets, at |-> 1, v |-> "reject"],
+    json_deep_unclosed       |-> [t |-> ScenarioTargets, at |-> 1, v |-> "reject"],
+    json_nul                 |-> [t |-> ScenarioTargets, at |-> 1, v |-> "reject"],
+    json_is_dir              |-> [t |-> ScenarioTargets, at |-> 1, v |-> "lax"],
+    json_scalar              |-> [t |-> ScenarioTargets, at |-> 1, v |-> "lax"],
+    json_string              |-> [t |-> ScenarioTargets, at |-> 1, v |-> "lax"],
+    json_null                |-> [t |-> ScenarioTargets, at |-> 1, v |-> "lax"],
+    json_list_scalars        |-> [t |-> ScenarioTargets, at |-> 1, v |-> "lax"],
+    json_trailing_garbage    |-> [t |-> ScenarioTargets, at |-> 1, v |-> "lax"],
+    json_two_values          |-> [t |-> ScenarioTargets, at |-> 1, v |-> "lax"],
+    json_bom                 |-> [t |-> ScenarioTargets, at |-> 1, v |-> "lax"],
+    json_deep                |-> [t |-> ScenarioTargets, at |-> 1, v |-> "lax"],
+    json_dup_key             |-> [t |-> ScenarioTargets, at |-> 1, v |-> "lax"],
+    json_huge_number         |-> [t |-> ScenarioTargets, at |-> 1, v |-> "lax"],
+    json_huge_string         |-> [t |-> ScenarioTargets, at |-> 1, v |-> "lax"],
     prop_nokey       |-> [t |-> {"config"},      at |-> 1, v |-> "reject"],
     prop_nofile      |-> [t |-> {"config"},      at |-> 1, v |-> "reject"],
     prop_nosuchkey   |-> [t |-> {"config"},      at |-> 1, v |-> "reject"],
     prop_emptykey    |-> [t |-> {"config"},      at |-> 1, v |-> "reject"],
+    prop_dir         |-> [t |-> {"config"},      at |-> 1, v |-> "reject"],
     unknown_tag      |-> [t |-> {"config"},      at |-> 0, v |-> "deliver"],
     env_unset        |-> [t |-> {"config"},      at |-> 1, v |-> "reject"],
     env_badint       |-> [t |-> {"config"},      at |-> 1, v |-> "reject"]
@@ -215,7 +362,7 @@ DescTable == [
 DescClasses == DOMAIN DescTable
 
 \* a config value has a single stage
-LastStage(t) == IF t = "config" THEN 1 ELSE IF t = "pool" THEN 2 ELSE 4
+LastStage(t) == IF t = "config" THEN 1 ELSE IF t = "pool" THEN 2 ELSE IF t = "cfg" THEN 3 ELSE 4
 
 -----------------------------------------------------------------------------
 (* The case space *)
@@ -233,6 +380,12 @@ AmmoCases ==
     \cup
     { [kind |-> "ammo", format |-> "grpcjson", mode |-> "continue", np |-> 0, cls |-> "long", nt |-> 0, arg |-> a] :
         a \in LongArgs }
+    \cup
+    { [kind |-> "ammo", format |-> "grpcjson", mode |-> m, np |-> 0, cls |-> "bufline", nt |-> nt, arg |-> a] :
+        m \in Modes("grpcjson"), nt \in 0..MaxTrail, a \in BufLineArgs }
+    \cup
+    UNION { { [kind |-> "ammo", format |-> f, mode |-> "stream", np |-> 0, cls |-> "degen", nt |-> 0, arg |-> a] :
+                a \in DegenArgs(f) } : f \in Formats }
 
 AmmoCaseOK(c) ==
     /\ c.mode \in Modes(c.format)
@@ -242,6 +395,8 @@ AmmoCaseOK(c) ==
     /\ (c.cls = "cut"  => c.nt = 0 /\ c.arg \in CutArgs)
     /\ (c.cls = "rerun" => c.mode \in {"stream", "preload"} /\ c.arg \in RerunArgs(c.format))
     /\ (c.cls = "long" => c.np = 0 /\ c.nt = 0 /\ c.mode = "continue" /\ c.arg \in LongArgs)
+    /\ (c.cls = "bufline" => c.np = 0 /\ c.arg \in BufLineArgs)
+    /\ (c.cls = "degen" => c.np = 0 /\ c.nt = 0 /\ c.mode = "stream" /\ c.arg \in DegenArgs(c.format))
     /\ (c.cls \notin ParamAmmoClasses => c.arg = <<>>)
 
 DescCases ==
@@ -331,8 +486,52 @@ PoolCases == { [kind |-> "desc", format |-> "pool", mode |-> "-", np |-> 0, cls 
 \* the name the rejection must carry ("-": none)
 NameOf(c) == IF c.format = "pool" THEN PoolTable[c.cls].nm ELSE "-"
 
+\* (f) PROPERTY FILES behind a `${property:file#key}` placeholder (target "config").  The file is a sequence of LINES
+\*     over PropTokens, written in a layout; the placeholder asks for `req` ("key", or "" - the placeholder without a
+\*     key).  An ENTRY is a line with a '=': its key is everything in front of the first '=', its value everything
+\*     behind it.  The resolver answers with the value of the FIRST entry whose key is exactly the requested one;
+\*     lines without '=' (a truncated entry `key`, blank lines) are not entries; a key is not trimmed and not
+\*     un-commented; a byte order mark belongs to the first line.  A line longer than the reader's buffer ends the
+\*     reading: what is in front of it resolves as always, what is behind it may or may not be found.
+\*     arg = <<lines, req, layout>>.  Observed: Value(v) (what the config field was set to), then the stage.
+PropTokens  == {"kv", "kv2", "bare", "blank", "comment", "eqonly", "emptyval", "other", "longer", "eqval", "spaced", "long"}
+PropLayouts == {"lf", "crlf", "nofinalnl", "bom"}
+PropReqs    == {"key", ""}
+PropHasEq(t) == t \notin {"bare", "blank"}
+PropKey(t) == CASE t \in {"kv", "kv2", "emptyval", "eqval"} -> "key"      \* key=v1  key=v2  key=  key=a=b
+                [] t = "eqonly"  -> ""                                     \* =
+                [] t = "other"   -> "other"                                \* other=x
+                [] t = "longer"  -> "key2"                                 \* key2=wrong
+                [] t = "spaced"  -> " key "                                \* " key = v3"
+                [] t = "comment" -> "# key"                                \* "# key=commented"
+                [] t = "long"    -> "zlong"                                \* zlong=<70 000 characters>
+                [] OTHER         -> "-"
+PropVal(t) == CASE t = "kv" -> "v1" [] t = "kv2" -> "v2" [] t = "eqval" -> "a=b" [] OTHER -> ""
+PropMatches(l, i, req, lay) == PropHasEq(l[i]) /\ PropKey(l[i]) = req /\ ~(lay = "bom" /\ i = 1)
+PropInfo(a) ==
+    LET l == a[1]
+        hits  == { i \in 1..Len(l) : PropMatches(l, i, a[2], a[3]) }
+        longs == { i \in 1..Len(l) : l[i] = "long" }
+        first == CHOOSE i \in hits : \A j \in hits : i <= j
+    IN IF hits = {} THEN [v |-> "reject", val |-> ""]
+       ELSE IF \E j \in longs : j < first THEN [v |-> "either", val |-> PropVal(l[first])]
+       ELSE [v |-> "deliver", val |-> PropVal(l[first])]
+PropLineSeqs == UNION { [1..n -> PropTokens] : n \in 0..MaxPropLines }
+PropArgs  == { <<l, r, lay>> : l \in PropLineSeqs, r \in PropReqs, lay \in PropLayoutSet }
+IsPropArg(a) == /\ Len(a) = 3 /\ Len(a[1]) <= MaxPropLines /\ \A i \in 1..Len(a[1]) : a[1][i] \in PropTokens
+                /\ a[2] \in PropReqs /\ a[3] \in PropLayouts
+PropCases == { [kind |-> "desc", format |-> "config", mode |-> "-", np |-> 0, cls |-> "propfile", nt |-> 0, arg |-> a] : a \in PropArgs }
+
+\* (e) configuration files as text (CfgSchema.tla): target "cfg", stages parse -> construct -> run
+CfgCases ==
+    { [kind |-> "desc", format |-> "cfg", mode |-> "-", np |-> 0, cls |-> "tree", nt |-> 0, arg |-> a] :
+        a \in { x \in CfgTreeArgs : x[1] \in CfgTreeSyn } }
+    \cup
+    { [kind |-> "desc", format |-> "cfg", mode |-> "-", np |-> 0, cls |-> "text", nt |-> 0, arg |-> a] : a \in CfgTextArgs }
+CfgI(c) == CfgInfo(c.cls, c.arg)
+
 ParamCases ==
-    PoolCases \cup
+    PoolCases \cup CfgCases \cup PropCases \cup
     { [kind |-> "desc", format |-> t, mode |-> "-", np |-> 0, cls |-> "tfunc", nt |-> 0, arg |-> a] :
         t \in ScenarioTargets, a \in FuncArgs }
     \cup
@@ -345,6 +544,8 @@ ParamCases ==
 \* [t, at, v] of any description case
 DescInfo(c) ==
     CASE c.format = "pool" -> [t |-> {"pool"}, at |-> PoolTable[c.cls].at, v |-> PoolTable[c.cls].v]
+      [] c.format = "cfg"  -> [t |-> {"cfg"}, at |-> CfgI(c).at, v |-> IF CfgI(c).v = "lax" THEN "either" ELSE CfgI(c).v]
+      [] c.cls = "propfile" -> LET i == PropInfo(c.arg) IN [t |-> {"config"}, at |-> IF i.v = "deliver" THEN 0 ELSE 1, v |-> i.v]
       [] c.cls = "reqlist" -> LET v == ReqListVerdict(c.arg) IN
                               [t |-> ScenarioTargets, at |-> IF v = "deliver" THEN 0 ELSE 1, v |-> v]
       [] c.cls = "index"   -> LET v == IndexVerdict(c.arg) IN
@@ -362,6 +563,8 @@ IsCase(c) ==
            /\ AmmoCaseOK(c)
        ELSE /\ c.kind = "desc" /\ c.mode = "-" /\ c.np = 0 /\ c.nt = 0
             /\ CASE c.format = "pool" -> c.cls \in PoolClasses /\ c.arg = <<>>
+                 [] c.format = "cfg"  -> IsCfgCase(c.cls, c.arg) /\ (c.cls = "tree" => c.arg[1] \in CfgSyntaxes)
+                 [] c.cls = "propfile" -> c.format = "config" /\ IsPropArg(c.arg)
                  [] c.cls = "reqlist" -> /\ c.format \in ScenarioTargets
                                          /\ Len(c.arg) <= MaxReqLen
                                          /\ \A i \in 1..Len(c.arg) : c.arg[i] \in ReqTokens
@@ -382,7 +585,7 @@ Trail(c)  == Strs(TrailIds(c))
 \* the file as a sequence of items
 \* (long files: nothing here builds the whole file per step - TLC re-evaluates operators on every reference)
 IsBad(c, i) == c.arg[2] # 0 /\ (i = 2 \/ i % c.arg[2] = 0)
-FileLen(c)  == IF c.cls = "long" THEN c.arg[1] ELSE c.np + 1 + c.nt
+FileLen(c)  == IF c.cls = "long" THEN c.arg[1] ELSE IF c.cls = "degen" THEN c.arg[2] ELSE c.np + 1 + c.nt
 IsItem(c, pos) == IF c.cls = "long" THEN IsBad(c, pos) ELSE pos = c.np + 1
 ItemAt(c, pos) == IF IsItem(c, pos) THEN "x"
                   ELSE IF c.cls = "long" THEN ToString(pos)
@@ -401,7 +604,7 @@ Lead(c) == IF c.cls = "long" THEN (IF c.arg[2] = 0 THEN File(c) ELSE <<"1">>) EL
 (*   loaded : whole-file readers: "no" before the decode-everything step,  *)
 (*            then "with" / "without" the item in the loaded list          *)
 
-Start(c) == [pos |-> 1, out |-> <<>>, res |-> "run", loaded |-> "no", n |-> 0, pass |-> 1, cnt |-> 0]
+Start(c) == [pos |-> 1, out |-> <<>>, res |-> "run", loaded |-> "no", n |-> 0, pass |-> 1, cnt |-> 0, pd |-> 0]
 
 Ev(kind, arg) == [ev |-> kind, arg |-> arg]
 
@@ -413,7 +616,7 @@ MaySkip(c) ==
 ItemVerdicts(c) ==
     LET v == VerdictC(c) IN
     (IF v = "either" THEN {"deliver", "reject"} ELSE IF v = "mustskip" THEN {"skip"} ELSE {v})
-    \cup (IF v = "reject" /\ MaySkip(c) THEN {"skip"} ELSE {})
+    \cup (IF (v = "reject" \/ c.cls \in EitherJsonClasses) /\ MaySkip(c) THEN {"skip"} ELSE {})
 
 \* whole-file readers: one decode step over the complete file (s.loaded: "no" -> "with" / "without" the
 \* item), then plain deliveries; streaming readers decide at the item
@@ -449,10 +652,39 @@ AmmoSucc(c, s) ==
                                   SkipItem(s) }
           : v \in ItemVerdicts(c) }
 
+\* degenerate-only files, unlimited passes, `take` consumers (see ParamAmmoClasses).  pd = handed out in this pass.
+\* Before the run ends the driver reports how often the file was rewound: Rewinds(k), k = passes the consumers saw
+\* begin - 1, plus at most one rewind per entry the reader is ahead of them (the entry in its hand + what its sink
+\* buffers: grpc 128, http none).
+SinkBuffer(f) == IF f = "grpcjson" THEN 128 ELSE 0
+DegenSucc(c, s) ==
+    LET n     == c.arg[2]
+        take  == c.arg[3]
+        treat == DegenTreat(c.format, c.arg[1])
+        acc   == [e |-> Ev("End", "accepted"), s |-> [s EXCEPT !.res = "accepted"]]
+        ends  == IF s.cnt >= take THEN { acc }                               \* the consumers have what they wanted
+                 ELSE IF s.pos > n THEN (IF s.pd = 0 /\ Variant # "freerewind" THEN { Reject(s) } ELSE {})   \* a pass without ammo
+                 ELSE IF "reject" \in treat THEN { Reject(s) } ELSE {}
+        goes  == IF s.cnt >= take THEN {}
+                 ELSE IF s.pos > n
+                      THEN (IF s.pd > 0 \/ Variant = "freerewind"
+                              THEN { [e |-> Ev("Rewind", "-"), s |-> [s EXCEPT !.pos = 1, !.pass = @ + 1, !.pd = 0]] } ELSE {})
+                 ELSE (IF "skip" \in treat THEN { SkipItem(s) } ELSE {})
+                      \cup (IF "handout" \in treat
+                              THEN { [e |-> Ev("Deliver", "d"), s |-> [s EXCEPT !.pos = @ + 1, !.cnt = @ + 1, !.pd = @ + 1, !.out = Append(@, "d")]] }
+                              ELSE {})
+    IN IF s.loaded = "counted" THEN ends
+       ELSE goes \cup (IF ends # {} THEN { [e |-> Ev("Rewinds", ToString(k)), s |-> [s EXCEPT !.loaded = "counted"]] : k \in (s.pass - 1)..(s.pass + SinkBuffer(c.format)) }
+                                    ELSE {})
+
 DescSucc(c, s) ==
     LET d == DescInfo(c) IN
     IF s.pos > LastStage(c.format) THEN
         { [e |-> Ev("End", "accepted"), s |-> [s EXCEPT !.res = "accepted"]] }
+    ELSE IF d.v = "lax" THEN
+        \* not pinned by the statement: an error at the stage where the defect is met or at any later one, or none
+        { [e |-> Ev("Stage", Stages[s.pos]), s |-> [s EXCEPT !.pos = @ + 1]] }
+        \cup (IF s.pos >= d.at /\ Variant # "swallow" THEN { [e |-> Ev("End", "rejected"), s |-> [s EXCEPT !.res = "rejected"]] } ELSE {})
     ELSE IF s.pos # d.at THEN
         { [e |-> Ev("Stage", Stages[s.pos]), s |-> [s EXCEPT !.pos = @ + 1]] }
     ELSE
@@ -466,13 +698,47 @@ DescSucc(c, s) ==
         (IF d.v \in {"deliver", "either"} \/ Variant = "swallow"
             THEN { [e |-> Ev("Stage", Stages[s.pos]), s |-> [s EXCEPT !.pos = @ + 1]] } ELSE {})
 
+\* configuration text (CfgSchema): parse -> construct -> run.  A `reject` case ends at the stage where the
+\* defect is met; a `lax` case may end at that stage or at any later one, or be accepted (also without having
+\* shot: an empty pool list is a configuration with nothing to do); a rejection inside the second pool names it
+\* the way that stage names pools ("pools[1]" while decoding, "pool-1" once the engine runs it).
+CfgSucc(c, s) ==
+    LET i    == CfgI(c)
+        nm   == CfgNameOf(i, s.pos)
+        pass == [e |-> Ev("Stage", CfgStages[s.pos]), s |-> [s EXCEPT !.pos = @ + 1]]
+        end  == [e |-> Ev("End", "rejected"), s |-> [s EXCEPT !.res = "rejected"]]
+        name(x) == [e |-> Ev("Named", x), s |-> [s EXCEPT !.loaded = "named"]]
+        mayReject == Variant # "swallow" /\ ((i.v = "reject" /\ s.pos = i.at) \/ (i.v = "lax" /\ s.pos >= i.at))
+        mayPass   == i.v \in {"deliver", "lax"} \/ s.pos # i.at \/ Variant = "swallow"
+    IN
+    IF s.pos > 3 THEN { [e |-> Ev("End", "accepted"), s |-> [s EXCEPT !.res = "accepted"]] }
+    ELSE (IF mayReject
+            THEN (IF nm # "-" /\ s.loaded = "no" /\ Variant # "noname" THEN { name(nm) }
+                  ELSE IF i.opt /\ s.loaded = "no" /\ s.pos = 2 THEN { name("pools[1]"), end }
+                  ELSE { end })
+            ELSE {})
+         \cup (IF mayPass /\ s.loaded = "no" THEN { pass } ELSE {})
+         \cup (IF i.v = "lax" /\ s.pos = 3 /\ s.loaded = "no"
+                 THEN { [e |-> Ev("End", "accepted"), s |-> [s EXCEPT !.res = "accepted"]] } ELSE {})
+
+\* property files: the value the field got is observed first, then the (single) stage of a config value
+PropSucc(c, s) ==
+    LET i == PropInfo(c.arg) IN
+    IF s.pos > 1 THEN { [e |-> Ev("End", "accepted"), s |-> [s EXCEPT !.res = "accepted"]] }
+    ELSE (IF i.v \in {"deliver", "either"} \/ Variant = "swallow"
+            THEN (IF s.loaded = "no" THEN { [e |-> Ev("Value", i.val), s |-> [s EXCEPT !.loaded = "valued"]] }
+                  ELSE { [e |-> Ev("Stage", Stages[1]), s |-> [s EXCEPT !.pos = @ + 1]] })
+            ELSE {})
+         \cup (IF i.v \in {"reject", "either"} /\ s.loaded = "no" /\ Variant # "swallow"
+                 THEN { [e |-> Ev("End", "rejected"), s |-> [s EXCEPT !.res = "rejected"]] } ELSE {})
+
 Succ(c, s) ==
     IF s.res # "run" THEN {}
     ELSE { [e |-> x.e, s |-> [x.s EXCEPT !.n = @ + 1]] :
-             x \in (IF c.kind = "ammo" THEN AmmoSucc(c, s) ELSE DescSucc(c, s)) }
+             x \in (IF c.kind = "ammo" THEN (IF c.cls = "degen" THEN DegenSucc(c, s) ELSE AmmoSucc(c, s)) ELSE IF c.format = "cfg" THEN CfgSucc(c, s) ELSE IF c.cls = "propfile" THEN PropSucc(c, s) ELSE DescSucc(c, s)) }
 
 \* events the implementation cannot show are silent for the acceptor
-Silent(e) == e.ev \in {"Load", "Skip", "Rewind"}
+Silent(e) == e.ev \in {"Load", "Skip", "Rewind"}     \* (degen: the rewinds are reported as a count, Rewinds(k))
 
 -----------------------------------------------------------------------------
 (* Design-level behaviour *)
@@ -513,7 +779,7 @@ TypeOK ==
 \* minus the item itself, is an initial part of the well-formed entries in file order
 \* (for the long files the check is made on the final state only - out only grows, so that implies the rest)
 PrefixUnchanged ==
-    (cs.kind = "ammo" /\ (cs.cls # "long" \/ st.res # "run")) => IsPrefixOf(Clean(cs, st.out), Expected(cs))
+    (cs.kind = "ammo" /\ cs.cls # "degen" /\ (cs.cls # "long" \/ st.res # "run")) => IsPrefixOf(Clean(cs, st.out), Expected(cs))
 
 \* an input that must be rejected is never accepted unless continue-on-error was requested and applies
 NoSilentAccept ==
@@ -524,7 +790,8 @@ NoSilentAcceptDesc ==
 
 \* a rejected pool configuration has named the pool it rejects
 RejectedPoolIsNamed ==
-    (st.res = "rejected" /\ cs.kind = "desc" /\ NameOf(cs) # "-") => st.loaded = "named"
+    /\ (st.res = "rejected" /\ cs.kind = "desc" /\ NameOf(cs) # "-") => st.loaded = "named"
+    /\ (st.res = "rejected" /\ cs.kind = "desc" /\ cs.format = "cfg" /\ CfgNameOf(CfgI(cs), st.pos) # "-") => st.loaded = "named"
 
 \* a well-formed input is never rejected
 NoFalseReject ==
@@ -533,15 +800,22 @@ NoFalseReject ==
 
 \* streaming: when the reader fails at the item, everything before it has been delivered, unchanged
 StreamDeliversPrefix ==
-    (st.res = "rejected" /\ cs.kind = "ammo") =>
+    (st.res = "rejected" /\ cs.kind = "ammo" /\ cs.cls # "degen") =>
         st.out = (IF AtLoad(cs) THEN <<>> ELSE Lead(cs))
 
 \* accepted: every well-formed entry was delivered, in order
 AcceptedDeliversAll ==
-    (st.res = "accepted" /\ cs.kind = "ammo") => Clean(cs, st.out) = Expected(cs)
+    /\ (st.res = "accepted" /\ cs.kind = "ammo" /\ cs.cls # "degen") => Clean(cs, st.out) = Expected(cs)
+    /\ (st.res = "accepted" /\ cs.kind = "ammo" /\ cs.cls = "degen") => Len(st.out) = cs.arg[3]
+
+\* degenerate-only files: every rewind of the file is paid for by an entry handed out in the pass before it
+RewindsArePaidFor ==
+    (cs.kind = "ammo" /\ cs.cls = "degen") => st.pass - 1 <= st.cnt
 
 \* no hang / no spinning: every step consumes an item or ends the run, so the number of steps (st.n) of
 \* any behaviour is bounded by the length of the input (+ load step + end step)
-Progress == st.n <= (IF cs.kind = "ammo" THEN (FileLen(cs) + 1) * NPasses(cs) + 1 ELSE LastStage(cs.format) + 2)
+Progress == st.n <= (IF cs.kind = "ammo"
+                       THEN (IF cs.cls = "degen" THEN (FileLen(cs) + 1) * (cs.arg[3] + 1) + 3 ELSE (FileLen(cs) + 1) * NPasses(cs) + 1)
+                       ELSE LastStage(cs.format) + 2)
 
 =============================================================================
